@@ -136,7 +136,7 @@ func Families(tier string) []Family {
 		}
 		for _, m := range []mk{
 			{"multi-ss", "sslice", Ts("--l", "--l=v", "v", "w", "--b", "--", "-", "cmd", "-x", "")},
-			{"multi-is", "islice", Ts("--l", "--l=1", "--l=1..3", "1", "2", "1.5", "1..3", "3..1", "x", "--b", "--")},
+			{"multi-is", "islice", Ts("--l", "--l=1", "--l=1..3", "1", "2", "1.5", "1..3", "3..1", "x", "--b", "--", "99999999999999999999")},
 			{"multi-fs", "fslice", Ts("--l", "--l=0.1", "--l=x", "1.5", "2", "1e-320", "x", "--b", "--")},
 			{"multi-sm", "smap", Ts("--l", "--l=k=v", "k=v", "k=w=z", "K=v", "j=1", "x", "--b", "--")},
 		} {
@@ -150,6 +150,12 @@ func Families(tier string) []Family {
 					c.Nodes = []NodeCfg{rootNode(0, false), cmdNode("cmd", 1, 0, false, true)}
 					c.Opts = []OptCfg{multi(m.kind, "l", 1, g[0], g[1]), opt("bool", "b", 1)}
 					f.Defs = append(f.Defs, Def{Cfg: c, Tokens: m.toks, L: lim(tier, 3, 5)})
+					if mode == 0 && gi == 0 {
+						// "as many as there are": the maximum is the largest int
+						cu := c
+						cu.Opts = []OptCfg{multi(m.kind, "l", 1, 1, Unlimited), opt("bool", "b", 1)}
+						f.Defs = append(f.Defs, Def{Cfg: cu, Tokens: m.toks, L: lim(tier, 3, 4)})
+					}
 					if mode == 0 && gi < 2 {
 						// GetEnv on a multi-value option is a no-op, whatever the variable holds
 						ce := c
@@ -206,7 +212,7 @@ func Families(tier string) []Family {
 	// term: `--` at every position after every context (C04, C09)
 	{
 		f := Family{Name: "term"}
-		toks := Ts("--", "a", "--b", "--s", "--s=v", "--l", "--l=v", "--so", "cmd", "--c", "--u", "")
+		toks := Ts("--", "a", "--b", "--s", "--s=v", "--l", "--l=v", "--so", "cmd", "--c", "--u", "", "-=x")
 		for _, um := range []int{0, 2} {
 			for _, ro := range []bool{false, true} {
 				for mode := 0; mode < 3; mode++ {
@@ -329,6 +335,11 @@ func Families(tier string) []Family {
 					f.Defs = append(f.Defs, Def{Cfg: c, Tokens: toks, L: lim(tier, 3, 4)})
 				}
 			}
+			// the lone dash as an option that takes a value: `--=v` is a double-dash token in every mode
+			cd := Cfg{Mode: mode}
+			cd.Nodes = []NodeCfg{rootNode(2, false)}
+			cd.Opts = []OptCfg{opt("string", "-", 1), opt("bool", "x", 1)}
+			f.Defs = append(f.Defs, Def{Cfg: cd, Tokens: Ts("-", "--=v", "-=v", "--=", "v", "-x", "--"), L: lim(tier, 3, 4)})
 		}
 		fams = append(fams, f)
 	}
@@ -364,6 +375,14 @@ func Families(tier string) []Family {
 				c.Nodes[1].Unset = true
 				c.Opts = []OptCfg{opt("bool", "b", 1), opt("bool", "c", 2)}
 				f.Defs = append(f.Defs, Def{Cfg: c, Tokens: toks, L: lim(tier, 3, 4)})
+				if mode == 0 {
+					// nested wrappers, the tree declared first and UnsetOptions called afterwards, outermost first
+					cn := Cfg{Mode: 0, UnsetLate: true}
+					cn.Nodes = []NodeCfg{rootNode(um, false), cmdNode("w", 1, um, false, true), cmdNode("sub", 2, um, false, true)}
+					cn.Nodes[1].Unset, cn.Nodes[2].Unset = true, true
+					cn.Opts = []OptCfg{opt("bool", "b", 1), opt("string", "c", 1)}
+					f.Defs = append(f.Defs, Def{Cfg: cn, Tokens: Ts("--b", "--c=x", "--c", "w", "sub", "x", "--u"), L: lim(tier, 4, 4)})
+				}
 				if mode == 0 {
 					// the same with the help option / command declared: asking for help does not excuse an unknown option
 					ch := WithHelp(c, "help")
@@ -437,6 +456,14 @@ func Families(tier string) []Family {
 			}
 			c.Opts = append(c.Opts, rq, ar)
 			c = WithHelp(c, "help", "h")
+			if variant == 0 {
+				// the program preloads the required options with SetValue: that does not count as giving them
+				for oi := range c.Opts {
+					if c.Opts[oi].Req && c.Opts[oi].Kind == "string" {
+						c.Sets = append(c.Sets, SetCfg{Opt: oi + 1, Vals: Ts("preloaded")})
+					}
+				}
+			}
 			d := Def{Cfg: c, Tokens: toks, L: lim(tier, 3, 4), Disp: true}
 			if variant == 2 {
 				// history: the environment satisfies the required option however often Parse runs
